@@ -58,11 +58,13 @@ Definition bucket0 : bucket :=
   mkB (repeat chunk0 NCH) 0 (PM.empty _) (repeat hchunk0 NCH) 0 (O, (-1)%Z) (N.to_nat max_num_chunk - 1)
       None [] (O, 0%Z) (O, (-1)%Z) 0 [] None None None.
 
-Fixpoint upd {A} (l : list A) (i : nat) (x : A) : list A :=
-  match l, i with
-  | [], _ => []
-  | _ :: t, O => x :: t
-  | y :: t, S k => y :: upd t k x
+(* update position i of a table whose missing entries read as the default d (the table grows on demand) *)
+Fixpoint updd {A} (d : A) (l : list A) (i : nat) (x : A) : list A :=
+  match i, l with
+  | O, [] => [x]
+  | O, _ :: t => x :: t
+  | S k, [] => d :: updd d [] k x
+  | S k, y :: t => y :: updd d t k x
   end.
 
 Definition chunk_at (b : bucket) (c : nat) : chunk := nth c (b_chunks b) chunk0.
@@ -71,7 +73,7 @@ Definition hchunk_at (b : bucket) (c : nat) : hchunk := nth c (b_hints b) hchunk
 Definition set_chunks (b : bucket) (cs : list chunk) : bucket :=
   mkB cs (b_head b) (b_tree b) (b_hints b) (b_hmax b) (b_maxdumped b) (b_dumpable b) (b_merged b) (b_ctab b) (b_ctid b)
       (b_treeid b) (b_nextgc b) (b_treefiles b) (b_mergedfile b) (b_ctfile b) (b_nextgcfile b).
-Definition set_chunk (b : bucket) (c : nat) (k : chunk) : bucket := set_chunks b (upd (b_chunks b) c k).
+Definition set_chunk (b : bucket) (c : nat) (k : chunk) : bucket := set_chunks b (updd chunk0 (b_chunks b) c k).
 Definition set_head (b : bucket) (h : nat) : bucket :=
   mkB (b_chunks b) h (b_tree b) (b_hints b) (b_hmax b) (b_maxdumped b) (b_dumpable b) (b_merged b) (b_ctab b) (b_ctid b)
       (b_treeid b) (b_nextgc b) (b_treefiles b) (b_mergedfile b) (b_ctfile b) (b_nextgcfile b).
@@ -182,11 +184,11 @@ Definition trydump (b : bucket) (c : nat) (dumplast : bool) : bucket :=
   let hc1 := mkHC sps (hc_active hc) in
   let stop := (negb dumplast && Nat.eqb c (b_hmax b)) || negb (hc_active hc) in
   let j := Z.of_nat (length sps - 1) in
-  if stop || negb (need_dump (last_split sps)) then set_hints b (upd (b_hints b) c hc1) (b_hmax b) md
+  if stop || negb (need_dump (last_split sps)) then set_hints b (updd hchunk0 (b_hints b) c hc1) (b_hmax b) md
   else
     let sps' := removelast sps ++ [dump_split (last_split sps); split0] in
     let md' := if hid_larger md c j then (c, j) else md in
-    set_hints b (upd (b_hints b) c (mkHC sps' false)) (b_hmax b) md'.
+    set_hints b (updd hchunk0 (b_hints b) c (mkHC sps' false)) (b_hmax b) md'.
 
 (* hintMgr.setItem *)
 Definition hints_set_item (cf : cfg) (b : bucket) (it : hitem) (c : nat) (recsize : N) : bucket :=
@@ -201,7 +203,7 @@ Definition hints_set_item (cf : cfg) (b : bucket) (it : hitem) (c : nat) (recsiz
         let fresh := match split_set (c_splitcap cf) split0 it recsize with Some sp => sp | None => split0 end in
         (removelast sps ++ [full'; fresh], true)
     end in
-  let b1 := set_hints b (upd (b_hints b) c (mkHC sps' true)) (b_hmax b) (b_maxdumped b) in
+  let b1 := set_hints b (updd hchunk0 (b_hints b) c (mkHC sps' true)) (b_hmax b) (b_maxdumped b) in
   let b2 := if rotated then trydump b1 c false else b1 in
   if Nat.ltb (b_hmax b2) c then set_hints b2 (b_hints b2) c (b_maxdumped b2) else b2.
 
@@ -316,14 +318,16 @@ Definition next_version (oldv rev : Z) : option Z :=
 Inductive setout := SStored | SNotFound.    (* nil error / "NOT_FOUND" error *)
 
 (* bucket.checkAndSet: rev = 0 auto, > 0 explicit, < 0 delete *)
-Definition check_and_set (cf : cfg) (hf : bytes -> N) (b : bucket)
+Definition check_and_set_gen (sets_only : bool) (cf : cfg) (hf : bytes -> N) (b : bucket)
            (key val : bytes) (flag : N) (rev : Z) (ts : N) (z : zinfo) : bucket * setout :=
   let h := hf key in
   let vh := if (0 <=? rev)%Z then vhash val else 0 in
   let comp := compress_decide (lenN key) (lenN val) flag rev z in
   let old := bkt_get_mem b h key in
   let oldv := match old with Some (v, _, _) => v | None => 0%Z end in
-  let same := match old with Some (v, ovh, _) => (0 <? v)%Z && (vh =? ovh) | None => false end in
+  (* [sets_only]: the shortcut is guarded by v.Ver >= 0 (Consts.vhash_shortcut_sets_only, finding F16) *)
+  let same := (if sets_only then (0 <=? rev)%Z else true) &&
+              match old with Some (v, ovh, _) => (0 <? v)%Z && (vh =? ovh) | None => false end in
   if same && c_checkvhash cf then
     match old with
     | Some (_, _, p) => if negb (rev =? 0)%Z then (tree_put b h (mkSlot p rev vh), SStored) else (b, SStored)
@@ -339,6 +343,8 @@ Definition check_and_set (cf : cfg) (hf : bytes -> N) (b : bucket)
                      (match comp with Some n => n | None => lenN val end) in
         (bkt_set cf b h r vh, SStored)
     end.
+
+Definition check_and_set := check_and_set_gen vhash_shortcut_sets_only.
 
 (* ---- incr ---- *)
 Definition digit (c : N) : option Z := if (48 <=? c) && (c <=? 57) then Some (Z.of_N (c - 48)) else None.
